@@ -672,6 +672,7 @@ class SyncObj(object):
                     logger.error(
                         'request to switch to unsupported code version (self version: %d, requested version: %d)' %
                         (self.__selfCodeVersion, e.ver))
+                    break
 
             if not self.__conf.appendEntriesUseBatch:
                 needSendAppendEntries = True
